@@ -44,7 +44,9 @@ func c20Mutators(rt *rapid.T) {
 				acts = append(acts, "SetWarnings")
 			}
 		} else {
-			acts = append(acts, "RequestTracingId")
+			// SetTracingId on a request: "tracing ids can only be used with response frames ... ignored otherwise" - the
+			// flag follows the call, the id itself must never reach the wire
+			acts = append(acts, "RequestTracingId", "SetTracingId")
 		}
 		a := rapid.SampledFrom(acts).Draw(rt, fmt.Sprintf("act%d", i))
 		arg := rapid.IntRange(0, 2).Draw(rt, fmt.Sprintf("arg%d", i)) // 0 nil, 1 empty, 2 non-empty
@@ -130,7 +132,7 @@ func c20Mutators(rt *rapid.T) {
 		if err != nil {
 			rt.Fatalf("after %v the encoded frame does not decode: %v\n%s", history, err, canon.Render(f))
 		}
-		if d := canon.Diff(f, dec); d != "" {
+		if d := diffFrames(f, dec); d != "" {
 			rt.Fatalf("after %v the frame does not round-trip: %s\n%s", history, d, canon.Render(f))
 		}
 	}
@@ -186,6 +188,13 @@ func c20Startup(rt *rapid.T) {
 		switch a {
 		case "Compression":
 			c := rapid.SampledFrom([]primitive.Compression{primitive.CompressionNone, primitive.CompressionLz4, primitive.CompressionSnappy}).Draw(rt, fmt.Sprintf("c%d", i))
+			if rapid.IntRange(0, 2).Draw(rt, fmt.Sprintf("carb%d", i)) == 0 {
+				// the parameter type is a string type: any string may be stored and must be returned as stored
+				c = primitive.Compression(rapid.SampledFrom([]string{"lz4", "Snappy", "zstd", "none", "", " LZ4", "LZ4 "}).Draw(rt, fmt.Sprintf("cs%d", i)))
+				if rapid.Bool().Draw(rt, fmt.Sprintf("cany%d", i)) {
+					c = primitive.Compression(gen.Str(rt, fmt.Sprintf("cstr%d", i)))
+				}
+			}
 			m.SetCompression(c)
 			if c == primitive.CompressionNone {
 				delete(model, message.StartupOptionCompression)
